@@ -395,6 +395,8 @@ func runC02(c *Ctx) {
 	ruleRequestBodyUnread(c, p, "C02.R")
 	c.Rule("C02.X", "the context of a fetched request is not cancelled before its body was forwarded", 1)
 	ruleNoDeferredCancelOnReturnedResponse(c, p, "C02.X", "agent/utils", "agent")
+	c.Rule("C02.V", "each worker goroutine forwards the request of its own iteration (no loop variable shared between workers, = C01.M)", 1)
+	ruleLoopSharedCapture(c, p, "C02.V", 1, "agent", "agent/utils", "server")
 	c.Rule("C02.M", "request bytes live in call-owned buffers (no pooled memory on the request path)", 1)
 	rulePooledMemory(c, p, "C02.M", "agent/utils", "server", "agent")
 
@@ -417,6 +419,20 @@ func runC02(c *Ctx) {
 		c.Check("C02.I", "proxy:serialises-with-Write", p, f.Pos(), len(w) == 1 && len(wp) == 0, "the request is serialised with Request.Write (origin form, Host preserved)", fmt.Sprintf("the pending request is serialised with %d Write / %d WriteProxy calls: WriteProxy emits an absolute-form target", len(w), len(wp)))
 		if len(w) == 1 {
 			c.ArgIs("C02.I", "proxy:serialises-stored-request", p, w[0], 0, "the serialised object is the stored client request", P(f, 0)+".requests["+P(f, 3)+"].req")
+		}
+		if len(w) == 1 {
+			// nothing else is written into the reply after the serialised request: Request.Write has
+			// flushed the request line and header before it can fail, so an error text appended to the
+			// same stream is parsed by the agent as (part of) the client's body
+			wr := ParamAt(f, 1)
+			hit, _ := (&Walk{Target: func(i ssa.Instruction) bool {
+				if i == w[0] {
+					return false
+				}
+				_, ok := producesResponse(i, wr)
+				return ok
+			}, Ctx: f}).FromInstr(w[0])
+			c.Check("C02.I", "proxy:nothing-follows-the-serialised-request", p, w[0].Pos(), hit == nil, "the reply to the agent ends with the serialised request", "after pending.req.Write(w) the handler writes more into the same reply ("+posStr(p, hit)+"): when serialisation fails midway the error text follows the already-sent request line and header, and the agent forwards it to the backend as the client's body")
 		}
 	}
 	if f := c.need(p, "C02.I", "agent/utils.parseRequestFromProxyResponse"); f != nil {
